@@ -291,15 +291,18 @@ def run_batch(exe, batch, timeout, keep=False):
     WORK.mkdir(exist_ok=True)
     d = tempfile.mkdtemp(dir=WORK)
     try:
-        os.mkdir(os.path.join(d, "dir_c08"))
-        open(os.path.join(d, "unreadable_c08"), "w").close()
-        os.chmod(os.path.join(d, "unreadable_c08"), 0)
         script = []
         for cid, c in batch:
+            cd = os.path.join(d, "case_" + cid)                  # one directory per case: files of different cases never mix
+            os.mkdir(cd)
+            os.mkdir(os.path.join(cd, "dir_c08"))
+            open(os.path.join(cd, "unreadable_c08"), "w").close()
+            os.chmod(os.path.join(cd, "unreadable_c08"), 0)
             for name, data in c["files"].items():
-                with open(os.path.join(d, name), "wb") as f:
+                with open(os.path.join(cd, name), "wb") as f:
                     f.write(data)
-            script += case_script(c, cid, timeout)
+            cs = case_script(c, cid, timeout)
+            script += cs[:1] + [f"cwd {hx(cd)}"] + cs[1:]
         env = dict(os.environ, ASAN_OPTIONS=ASAN_ENV, UBSAN_OPTIONS=UBSAN_ENV)
         try:
             r = subprocess.run([str(exe)], input=("\n".join(script) + "\n").encode(), capture_output=True, cwd=d, env=env,
